@@ -140,3 +140,36 @@ def double_application(R, ctx, rid, W):
             R.ob(rid, "%s|%s.%s" % (W, slot[0], slot[1]), not dbl, ctx.where(lib.fns[p], ln),
                  ("`%s` receives %s directly here AND again from process callback after visit_%s: its tokens are shifted twice" % (U.split("::")[-1], W, U.split("::")[-1])) if dbl else "single route")
     R.require(rid, "floor:direct-sites", n >= 30, "", "%d direct applications through a field (floor 30)" % n)
+    # a callback that applies `P::W` to its own node and, besides, W to something held in a slot of that node which `P::W`
+    # itself already walks (e.g. the segments of an interpolated string)
+    callback_paths = set(fam.proc_over.values())
+    own = {}          # slot -> the `U::W` bodies applying W to it
+    for slot, lst in direct.items():
+        for U, pth, ln in lst:
+            if pth.endswith(suffix) and pth not in callback_paths:
+                own.setdefault(slot, set()).add(pth[: -len(suffix)])
+    m = 0
+    for ti, impl in sorted(fam.proc_over.items(), key=lambda kv: kv[1]):
+        fn = lib.fns[impl]
+        fa = ctx.an.fa(impl)
+        applied_to_self = set()
+        extra = []
+        for c in thir.calls(fn):
+            cal = callee_of(c) or ""
+            if c.get("fname") != W or not cal.endswith(suffix) or not c["args"]:
+                continue
+            o = fa.origins(c["args"][0])
+            fields = {x for x in o if x[0] != "#param"}
+            if ("#param", 1) in o and not fields:
+                applied_to_self.add(cal[: -len(suffix)])
+            else:
+                extra.append((fields, c.get("ln")))
+        for fields, ln in extra:
+            for slot in sorted(fields):
+                if slot[0] in applied_to_self:
+                    m += 1
+                    dbl = slot[0] in own.get(slot, ())
+                    R.ob(rid, "%s|callback|%s|%s.%s" % (W, impl.split("::")[-1], slot[0], slot[1]), not dbl, ctx.where(fn, ln),
+                         "the callback applies %s to its node, whose own %s already walks `%s`, and then to what that slot holds: those tokens are shifted twice" % (W, W, slot[1])
+                         if dbl else "not walked by the node's own %s" % W, nontrivial=dbl)
+    R.meta.setdefault("double_application", {})[W] = {"callback_extra_applications": m}
